@@ -219,6 +219,11 @@ fn main() {
         let picks: Vec<usize> = case.list("picks").iter().map(|s| s.parse().unwrap()).collect();
         say!("replaying C05 schedule: segment {} threads {} free regions {:?} picks {:?}", seg, threads, free, picks);
         let want = canonical(seg, 1).expect("canonical").0;
+        // a recorded hash salt: the canonical result above is that of salt 0, the replay runs under the recorded one
+        if let Some(salt) = case.opt("salt").and_then(|x| x.parse::<u64>().ok()) {
+            say!("replaying under hash salt {}", salt);
+            neurons::verif::set_hash_salt(salt);
+        }
         let a = rayon::model::run_once(threads, Some(&free), &picks, &[], || driver::run_segment(seg)).expect("replay");
         let b = rayon::model::run_once(threads, Some(&free), &picks, &[], || driver::run_segment(seg)).expect("replay");
         if a.0 != b.0 {
@@ -229,7 +234,7 @@ fn main() {
             say!("replay: the schedule gives the canonical result on the current tree");
             std::process::exit(0);
         }
-        say!("replay: VIOLATION property=C05 schedule-dependent result: {}", first_diff(&a.0, &want));
+        say!("replay: VIOLATION property=C05 {}-dependent result: {}", if case.opt("salt").is_some() { "hash-order" } else { "schedule" }, first_diff(&a.0, &want));
         std::process::exit(1);
     }
 
@@ -249,24 +254,27 @@ fn main() {
             std::process::exit(3)
         });
         // repetitions from freshly built networks (same weights, same data). What can differ between two instances in one
-        // process is per-instance state the library did not derive from its inputs - in practice the iteration order of a
-        // std HashMap (RandomState is seeded per map and cannot be steered from outside): this part is a sample of hash
-        // seeds, not an enumeration; the static scan below lists the iterations it guards.
-        let reps = if tier.thorough() { 48 } else { 12 };
+        // process is per-instance state the library did not derive from its inputs - the iteration order of its hash maps.
+        // The maps of feedback blocks are under the harness's control (hook: verif::set_hash_salt): every salt below is one
+        // assignment of iteration orders; the remaining maps (Network::connect / loopbacks, std RandomState) are covered by
+        // plain repetition and by the static scan, which shows that what is collected from them is sorted.
+        let salts: u64 = if tier.thorough() { 1024 } else { 96 };
         let mut stable = true;
-        for i in 0..reps {
+        for salt in 1..=salts {
+            neurons::verif::set_hash_salt(salt);
             let (b2, _, _) = canonical(seg, 1).unwrap();
             rep.states += 1;
             if b1 != b2 {
                 rep.violate(
                     "C05 repeated runs from the same weights and data differ",
-                    format!("segment {} (repetition {} of {}): {}", seg, i + 1, reps, first_diff(&b2, &b1)),
-                    &Kv::new().put("segment", seg).put("threads", 1).put("free", "").put("picks", "").put("kinds", ""),
+                    format!("segment {} with hash salt {} (iteration order of a 5-key map {:?}) against salt 0: {}", seg, salt, neurons::verif::hash_order_probe(&[0, 1, 2, 3, 4]), first_diff(&b2, &b1)),
+                    &Kv::new().put("segment", seg).put("threads", 1).put("free", "").put("picks", "").put("kinds", "").put("salt", salt),
                 );
                 stable = false;
                 break;
             }
         }
+        neurons::verif::set_hash_salt(0);
         if !stable {
             // nothing else can be attributed on a segment that does not even reproduce itself
             unstable.push(seg);
@@ -387,6 +395,21 @@ fn main() {
     // 5. interior mutability scan (leaf granularity is complete only without shared mutable state)
     let (files, hits) = scan_repo();
     rep.notes.insert("interior_mutability_scan".into(), Json::obj().with("files", Json::i(files as i64)).with("hits", Json::Arr(hits.iter().map(|h| Json::s(h.clone())).collect())));
+    {
+        let salts: u64 = if tier.thorough() { 1024 } else { 96 };
+        let mut orders4: BTreeSet<Vec<usize>> = BTreeSet::new();
+        let mut orders5: BTreeSet<Vec<usize>> = BTreeSet::new();
+        for salt in 0..=salts {
+            neurons::verif::set_hash_salt(salt);
+            orders4.insert(neurons::verif::hash_order_probe(&[1, 2, 3, 4]));
+            orders5.insert(neurons::verif::hash_order_probe(&[1, 2, 3, 4, 5]));
+        }
+        neurons::verif::set_hash_salt(0);
+        rep.notes.insert(
+            "hash_salts".into(),
+            Json::obj().with("salts", Json::i(salts as i64 + 1)).with("distinct_orders_of_a_4_key_map", Json::i(orders4.len() as i64)).with("of", Json::i(24)).with("distinct_orders_of_a_5_key_map", Json::i(orders5.len() as i64)).with("of_", Json::i(120)),
+        );
+    }
     rep.notes.insert("hash_iteration_scan".into(), Json::Arr(scan_hash_iteration().iter().map(|h| Json::s(h.clone())).collect()));
     rep.notes.insert("conformance".into(), Json::s(conf_note));
     rep.notes.insert("threads".into(), Json::Arr(ts.iter().map(|t| Json::i(*t as i64)).collect()));
@@ -399,7 +422,7 @@ fn main() {
 
     let meta = Meta {
         rule: format!(
-            "driver: conv+maxpool+deconv+feedback block+dense(dropout)+dense network; learn() on 5 samples with batch 2/3/5, 2 epochs, Adam and SGDM, 65 validation samples; batch 17 (25 samples) and batch 32 (40 samples) with at most 1 (thorough 2) non-canonical choices per region; validate() on 65 and 130 samples, and on 321 and 641 samples (6 and 11 chunks) with the choice cap; predict_batch() on 0,1,64,65,129,130 inputs; a 96->70->3 dense network (rows of 96 and 70 weights) through learn() with batch 2 and predict_batch(); a feedback block of two dense layers with input skips and 5 repetitions through learn() with batch 3. Every segment is also repeated 12 (thorough 48) times from freshly built networks (same weights and data) and must reproduce its bits. Thread counts {:?}; in every parallel region the choices are: entered from outside the pool or not, every steal pattern of rayon's adaptive splitter (stolen halves are `migrated`), every interleaving of a stolen half's leaves with its sibling's; schedules with <= {} deviating regions per run{}. A state is one complete schedule (executed on the real library code); transitions = parallel regions executed; non-trivial = schedules with at least one non-canonical choice",
+            "driver: conv+maxpool+deconv+feedback block+dense(dropout)+dense network; learn() on 5 samples with batch 2/3/5, 2 epochs, Adam and SGDM, 65 validation samples; batch 17 (25 samples) and batch 32 (40 samples) with at most 1 (thorough 2) non-canonical choices per region; validate() on 65 and 130 samples, and on 321 and 641 samples (6 and 11 chunks) with the choice cap; predict_batch() on 0,1,64,65,129,130 inputs; a 96->70->3 dense network (rows of 96 and 70 weights) through learn() with batch 2 and predict_batch(); a feedback block of two dense layers with input skips and 5 repetitions through learn() with batch 3. Every segment is also run under 96 (thorough 1024) hash salts - assignments of iteration orders to the maps of feedback blocks, through the hook - from freshly built networks (same weights and data) and must reproduce its bits. Thread counts {:?}; in every parallel region the choices are: entered from outside the pool or not, every steal pattern of rayon's adaptive splitter (stolen halves are `migrated`), every interleaving of a stolen half's leaves with its sibling's; schedules with <= {} deviating regions per run{}. A state is one complete schedule (executed on the real library code); transitions = parallel regions executed; non-trivial = schedules with at least one non-canonical choice",
             ts,
             if tier.thorough() { 2 } else { 1 },
             if tier.thorough() { " (pairs of regions: <= 2 non-canonical choices per region)" } else { "" }
